@@ -22,7 +22,7 @@ SPEC = {
     "assumptions": ["mass-difference field (dd) kept 0: the property names M  ISO and D/T as the isotope encodings", "coordinates representable in F10.4", "S  SKP skip-lines not generated"],
     "monitors_required": ["c08_v2000_vs_model", "c08_v2000_vs_v3000", "c08_string_compare"],
     "required_obs": {"quick": ["entries_per_line/8", "entries_per_line/3", "encoding/codes", "encoding/lines", "encoding/stale", "dt_with_foreign_iso", "unrelated", "atom_list_lines",
-                               "cov_three_digit_indices", "cov_adjacent_fixed_width_fields", "cov_isotopologue_history", "cov_identical_atom_lines_in_one_file", "cov_rad_only_lines_with_codes", "cov_chg_only_lines_with_radical_codes"]},
+                               "cov_three_digit_indices", "cov_adjacent_fixed_width_fields", "cov_isotopologue_history", "cov_corpus_as_v2000", "cov_identical_atom_lines_in_one_file", "cov_rad_only_lines_with_codes", "cov_chg_only_lines_with_radical_codes"]},
     "watchdog_s": {"quick": 900, "thorough": 5400},
 }
 PLAN = {"quick": {"cases": 5000, "big": 40}, "thorough": {"cases": 60000, "big": 400}}
@@ -183,6 +183,14 @@ def run(ctx):
     for k in range(common.share(ctx, plan["big"])):
         mol = gen_mol(rng, big=True)
         run_case(ctx, {"mol": mol.to_json(), "vseed": f"{ctx.seed}/{ctx.shard}/b{k}"})
+
+
+    for path, mol in common.corpus_mols(ctx):
+        if len(mol.atoms) <= 999 and len(mol.bonds) <= 999:
+            for a in mol.atoms:  # V2000 coordinates carry four decimals: snap the drawing (non-identity data) to the representable grid
+                a.x, a.y, a.z = round(a.x, 4), round(a.y, 4), round(a.z, 4)
+            run_case(ctx, {"mol": mol.to_json(), "vseed": f"{ctx.seed}/corpus/{mol.name}"})
+            ctx.count("cov_corpus_as_v2000")
 
 
 def replay(ctx, w):
